@@ -13,13 +13,16 @@ SPEC = {
         "thread-locality of the slot is taken from the `thread_local!` declaration (generated last_error_storage) and validated by two-thread runs",
         "module outputs cannot be read back through the C API; parity of module data is checked through rule verdicts after yrx_scanner_set_module_output",
     ],
-    "trusted_base": ["Gen/CapiEffects.v: YRX_RESULT variants, exported functions, per-function return paths with last-error effects, storage class of LAST_ERROR and message conversion, regenerated from capi/src/*.rs",
+    "trusted_base": ["Gen/CapiEffects.v: YRX_RESULT variants, exported functions, per-function return paths with last-error effects, storage class of LAST_ERROR, message conversion and the flag -> Compiler method table of _yrx_compiler_create, regenerated from capi/src/*.rs (flag values cross-checked with capi/include/yara_x.h)",
                      "extern declarations of the yrx_compiler_* functions in harness/src/bin/c19.rs (capi's `compiler` module is private; signatures copied from capi/src/compiler.rs)"],
 }
 
 RULE = ("corpus of crash probes first; then per case either (parity, 60%) a generated rule set (1-3 sources in 0-3 namespaces, 1-4 rules each with tags, metadata of every type, "
         "text/hex/regexp patterns with modifiers, conditions over patterns, filesize, earlier rules and 0-4 globals of type bool/int/float/string/json defined through "
-        "yrx_compiler_define_global_*, optionally one failing source, scanner-level overrides through yrx_scanner_set_global_* incl. wrong type / unknown name, 1-4 buffers built "
+        "yrx_compiler_define_global_*, a compiler created with flags 0 / one flag / any of the 64 combinations of COLORIZE_ERRORS, RELAXED_RE_SYNTAX, ERROR_ON_SLOW_PATTERN, "
+        "ERROR_ON_SLOW_LOOP, ENABLE_CONDITION_OPTIMIZATION, DISABLE_INCLUDES (the Rust compiler configured through the methods the header documents) with probe sources that make "
+        "each flag observable (slow hex/regexp pattern, slow loop, invalid escape and `{}` in a regexp, include of an existing / a missing file through add_include_dir, syntax error, "
+        "optimizable condition: accepted/rejected, error and warning codes, full error message, colour), the probes added again after yrx_compiler_build to the same compiler, optionally one failing source, scanner-level overrides through yrx_scanner_set_global_* incl. wrong type / unknown name, 1-4 buffers built "
         "from pattern instances, optional block scan, fast scan, max matches, serialize/deserialize round trip, test_proto2 output through yrx_scanner_set_module_output) run through "
         "the C API with callbacks and through the Rust API; or (plumbing, 40%) 10-40 random yrx_* operations per thread incl. null handles, invalid UTF-8, bad JSON, unknown/duplicate "
         "globals, wrong types, failing sources, garbage rule bytes, missing files, block-mode misuse, rare 1 s timeouts, on 1 thread, 2 threads in lock step (other thread's slot read "
@@ -70,7 +73,8 @@ MANIFEST = {
                    "result-code enumeration, storage class and message conversion are regenerated from capi/src on every run: for every history of calls on any threads a call "
                    "never changes another thread's slot and a thread's slot depends only on its own calls (thread_isolation, message_provenance); every return path of every "
                    "exported function yields a YRX_RESULT or belongs to a non-result function (codes_total); every path returning a detail-carrying code sets the message "
-                   "(failure_with_detail_sets, failure_slot). The generated table is replayed against recorded call sequences of the real library (1 and 2 threads, valid and "
+                   "(failure_with_detail_sets, failure_slot); every yrx_compiler_create flag switches the compiler option it is named after and survives yrx_compiler_build "
+                   "(compiler_flags_named_identically). The generated table is replayed against recorded call sequences of the real library (1 and 2 threads, valid and "
                    "invalid calls), and compile/scan results through the C API are compared with the Rust API on generated rule sets, globals and buffers."),
     "level_note": ("Parity with the Rust API is differential (generated inputs), not a theorem. Trusted: Coq kernel, gen_capi.py (syntactic path walker; raises on shapes it cannot "
                    "classify), harness, extern declarations. The inputs of two repaired process aborts (yrx_scanner_finish without a scanned block; console.log of a string with NUL "
